@@ -198,6 +198,27 @@ def to_f32(x):
     return struct.unpack("<f", struct.pack("<f", x))[0]
 
 
+def nearest_f32(x):
+    """The SINGLE nearest to the exact rational x (ties to even), without going through a DOUBLE."""
+    x = Fraction(x)
+    c = to_f32(float(x))
+    best = None
+    for cand in (c, to_f32_next(c, 1), to_f32_next(c, -1)):
+        d = abs(Fraction(cand) - x)
+        key = (d, struct.unpack("<I", struct.pack("<f", cand))[0] & 1)
+        if best is None or key < best[0]:
+            best = (key, cand)
+    return best[1]
+
+
+def to_f32_next(f, direction):
+    bits = struct.unpack("<i", struct.pack("<f", f))[0]
+    if f == 0:
+        return struct.unpack("<f", struct.pack("<i", 1))[0] * direction
+    bits += direction if f > 0 else -direction
+    return struct.unpack("<f", struct.pack("<i", bits))[0]
+
+
 def expected_int(v):
     if -32768 <= v <= 32767:
         return "I:%d" % v
@@ -276,6 +297,28 @@ def literal_cases(tier, rng):
     for frac in ("5", "25", "125"):
         yield "2147483648.%s#" % frac, "D:%r" % float("2147483648." + frac)
         yield "-2147483648.%s#" % frac, "D:%r" % -float("2147483648." + frac)
+    # SINGLE literals with many digits that sit next to the midpoint of two neighbouring SINGLEs: the literal denotes the
+    # SINGLE nearest to the written value (a detour through a DOUBLE rounds twice and picks the other neighbour)
+    for i in range(60 if tier == "quick" else 2000):
+        base = rng.choice([1.0, 2.0, 16777216.0, 0.5, 1024.0, 3.0, 100.0, 0.125])
+        f = to_f32(base * (1 + rng.randrange(0, 1 << 20) / float(1 << 23)))
+        g = to_f32_next(f, 1)
+        mid = (Fraction(f) + Fraction(g)) / 2
+        eps = Fraction(1, 10 ** rng.choice([25, 28, 32]))
+        x = mid + eps * rng.choice([1, -1])
+        # the exact decimal expansion of x (it terminates: x is a dyadic rational plus a power of ten)
+        whole = int(x)
+        frac = x - whole
+        digits = ""
+        while frac and len(digits) < 60:
+            frac *= 10
+            d = int(frac)
+            digits += str(d)
+            frac -= d
+        if frac or not digits:
+            continue
+        text = "%d.%s" % (whole, digits)
+        yield text, "S:%r" % nearest_f32(Fraction(text))
     # literals that no type can hold must be rejected, never become infinity
     yield "1" + "0" * 45 + ".5", "REJECT_OVERFLOW"
     yield "9" * 40 + ".25", "REJECT_OVERFLOW"
